@@ -136,6 +136,12 @@ func runC04On(c *Ctx, r *Report, pkgRel, typeName, ctorName string, control bool
 		if _, isPtr := recvT.Underlying().(*types.Pointer); isPtr {
 			continue // setters (WithByteOrder) are not accessors
 		}
+		// an unexported helper that is not itself a raw getter (e.g. a shared bounds/index
+		// computation) is examined in the frames of the methods that call it, under their
+		// arguments, not stand-alone under arbitrary ones
+		if m.Object() != nil && !m.Object().Exported() && !isRawGetter(m) && calledOnlyByMethodsOf(c, m, tn) {
+			continue
+		}
 		an := &Analysis{ctx: c, u: newUniverse(), top: m}
 		recv, cst, cfr, ok := ctorInstance(an, ctor)
 		if !ok {
@@ -596,4 +602,22 @@ func init() {
 		r.controls["C04/R4.2-reversed-layout"] = fired["badLayout:layout"]
 		r.controls["C04/R4.4-spurious-error"] = fired["spurious:spurious-error"]
 	}
+}
+
+// calledOnlyByMethodsOf: m has at least one static caller and all callers are methods of tn.
+func calledOnlyByMethodsOf(c *Ctx, m *ssa.Function, tn *types.Named) bool {
+	node := c.callGraph().Nodes[m]
+	if node == nil || len(node.In) == 0 {
+		return false
+	}
+	for _, e := range node.In {
+		cf := e.Caller.Func
+		if cf.Signature.Recv() == nil || !types.Identical(deref(cf.Signature.Recv().Type()), tn) {
+			return false
+		}
+		if call, ok := e.Site.(*ssa.Call); !ok || call.Common().StaticCallee() != m {
+			return false
+		}
+	}
+	return true
 }
